@@ -2,7 +2,7 @@
 import os, subprocess
 from lib import fw
 
-MODULES = ["SunriseVerif.Props.C03", "SunriseVerif.Witness.C03"]
+MODULES = ["SunriseVerif.Props.C03", "SunriseVerif.Props.C03Pool", "SunriseVerif.Witness.C03"]
 GEN = ["KernelsSwap"]
 
 
